@@ -413,6 +413,8 @@ def match_events(ctx, RE, f, tag, evs, spec):
         else:
             ctx.undecided(RE, '%s:event:%s' % (tag, ev.kind()), msg, fn=f, at=ev.span)
     for n in missing:
+        # definite even when some emission could not be classified: the section predicates include guard / width / direction, so a
+        # wrong guard shows up exactly as "unclassified emission + missing section" (downgrading this would lose such defects)
         ctx.violation(RE, '%s:missing:%s' % (tag, n), 'the encoder never emits section "%s" in the form the layout requires (direction, width, guard)' % n, fn=f)
     for n in used:
         ctx.ok(RE, '%s:section:%s' % (tag, n), None, fn=f)
